@@ -191,6 +191,34 @@ theorem mux_start_codes_four (c : MCfg) (aud : Nat → Bytes) (conv : Bytes → 
     ∀ o ∈ out, o.sc = 4 :=
   mux_four c aud conv nFrames bl el out e h hm
 
+/-- **mux(demux(s)) = s, byte for byte**: the two theorems above combined on the level of the written file — for a
+source in canonical form (every access unit led by the AUD the tool regenerates, `hca`) the bytes mux writes with
+the default start-code preset are the source's NAL units, each behind a 4-byte start code, in the source's order:
+exactly the source file when that was written with 4-byte start codes and no trailing zero bytes -/
+theorem demux_mux_bytes_identical (c : MCfg) (aud : Nat → Bytes) (conv : Bytes → Option Bytes) (nFrames : Nat)
+    (f0 : DlFrame) (rest : List DlFrame)
+    (hna : c.noAddAud = false) (heos : c.eosBeforeEl = false) (hd : c.discard = false) (hcs : c.convSet = false)
+    (hdrop : c.drop = false) (hab : c.annexb = false) (h0 : f0.au = 0) (hl : LabelsOk f0.au rest)
+    (hwf : ∀ f ∈ f0 :: rest, f.Wf) (hfr : ∀ it ∈ (f0 :: rest).flatMap DlFrame.all, it.au < nFrames)
+    (hca : ∀ f ∈ f0 :: rest, f.CanonAud aud) :
+    ∃ out, mux c aud conv nFrames (((f0 :: rest).flatMap DlFrame.all).filter isBl)
+        ((((f0 :: rest).flatMap DlFrame.all).filter isEl).map unwrapItem) = some (out, false) ∧
+      Split.render (out.map fun o => (o.sc == 4, o.data)) =
+        Split.render (((f0 :: rest).flatMap DlFrame.all).map fun it => (true, it.data)) := by
+  obtain ⟨out, hm, hp⟩ := demux_mux_id_canonical c aud conv nFrames f0 rest hna heos hd hcs hdrop h0 hl hwf hfr hca
+  refine ⟨out, hm, ?_⟩
+  have hsc := mux_start_codes_four c aud conv nFrames _ _ out false hab hm
+  have hdata : out.map (·.data) = ((f0 :: rest).flatMap DlFrame.all).map (·.data) := by
+    have := congrArg (List.map Prod.snd) hp
+    simpa [List.map_map, Function.comp_def, pay, payI] using this
+  have h1 : out.map (fun o => (o.sc == 4, o.data)) = (out.map (·.data)).map (fun d => (true, d)) := by
+    rw [List.map_map]
+    apply List.map_congr_left
+    intro o ho
+    simp [hsc o ho]
+  rw [h1, hdata, List.map_map]
+  rfl
+
 /-! ## non-vacuity: two frames, the first closed by EOS -/
 
 def exBl : List Item :=
